@@ -224,6 +224,99 @@ def gen_history(rng, nops):
     return doc, ops
 
 
+def py_protect(s):
+    """twin of yanny.protect for the seed text"""
+    if len(s) == 0 or '#' in s or re.search(r'\s+', s) is not None:
+        return '"' + s + '"'
+    return s
+
+
+def render_text(doc):
+    """The text write() would produce for the document, except that columns flagged 'unsized' are declared
+    char x[] / char x[n][] (which the writer never emits: such files are hand-written)."""
+    em = G.enum_map(doc)
+    out = '#%yanny\n' + ''.join('# %s\n' % c for c in doc['comments'])
+    for k, v in (doc.get('hdr') or []):
+        out += '%s %s\n' % (k, v)
+    ens = ['typedef enum {\n' + ',\n'.join('    ' + lab for lab in e[2]) + '\n} %s;' % e[1].upper() for e in (doc.get('enums') or [])]
+    if ens:
+        out += '\n' + '\n\n'.join(ens) + '\n'
+    sts = []
+    for t in doc['tables']:
+        txt = 'typedef struct {\n'
+        for c in t['cols']:
+            code = c['code']
+            arr = '[%d]' % c['arr'] if c['arr'] else ''
+            if code[0] == 'S':
+                if c['name'] in em:
+                    txt += '    %s %s%s;\n' % (em[c['name']][0].upper(), c['name'], arr)
+                else:
+                    txt += '    char %s%s[%s];\n' % (c['name'], arr, '' if c.get('unsized') else code[1:])
+            else:
+                txt += '    %s %s%s;\n' % (G.CTYPE[code], c['name'], arr)
+        sts.append(txt + '} %s;' % t['name'].upper())
+    out += '\n' + '\n\n'.join(sts) + '\n\n'
+
+    def tok(c, v):
+        if isinstance(v, dict):
+            return G.float_text(c['code'], v['f'])
+        return py_protect(v) if isinstance(v, str) else str(v)
+    for t in doc['tables']:
+        for r in t['rows']:
+            cells = []
+            for c, v in zip(t['cols'], r):
+                cells.append('{' + ' '.join(tok(c, x) for x in v) + '}' if isinstance(v, list) else tok(c, v))
+            out += ' '.join([t['name'].upper()] + cells) + '\n'
+    return out
+
+
+def make_text_seed(rng, doc):
+    """Turn a generated document into one that is read from hand-written TEXT: character columns of undeclared length.
+    The seed values stay short; the column's 'code' (used only to draw appended values and to build record arrays) is
+    widened, so later appends bring values longer than everything present at the first parse."""
+    em = G.enum_map(doc)
+    for t in doc['tables']:
+        for j, c in enumerate(t['cols']):
+            if c['code'][0] == 'S' and c['name'] not in em and t['rows'] and rng.random() < 0.7:
+                vals = [x for r in t['rows'] for x in (r[j] if isinstance(r[j], list) else [r[j]])]
+                if any(len(x) > 0 for x in vals):          # numpy has no zero-width strings
+                    c['unsized'] = True
+                    c['code'] = 'S%d' % (max(len(x) for x in vals) + rng.randint(2, 9))
+    used = [t['name'].upper() for t in doc['tables']]
+    name = [n for n in ('LOG', 'ULOG', 'NOTES') if n not in used][0]
+    k = rng.randint(2, 3)
+    doc['tables'].insert(rng.randint(0, len(doc['tables'])), {
+        'name': name,
+        'cols': [{'name': 'id9', 'code': 'i4', 'arr': None},
+                 {'name': 'note9', 'code': 'S%d' % rng.randint(6, 14), 'arr': None, 'unsized': True},
+                 {'name': 'tags9', 'code': 'S%d' % rng.randint(5, 10), 'arr': k, 'unsized': True}],
+        'rows': [[1, 'ok', ['a', 'b', ''][:k]], [2, 'bad', ['c', 'd', 'e'][:k]]][:rng.randint(1, 2)]})
+    doc['text_seed'] = True
+    return doc
+
+
+def gen_text_history(rng, nops):
+    doc = make_text_seed(rng, stabilise_doc(rng, G.gen_doc(rng, 'ndarray', ntables=rng.choice([1, 1, 2]), allow_u=False, max_rows=2)))
+    h = Hist(doc)
+    ui = [i for i, t in enumerate(doc['tables']) if any(c.get('unsized') for c in t['cols'])]
+    ops = []
+    for i in range(nops):
+        if i == 0 or rng.random() < 0.35:
+            # rows for a table with an undeclared-length column (values up to the widened code, i.e. longer than the seed's)
+            ti = rng.choice(ui)
+            lower = rng.random() < 0.5
+            form = rng.choice(['lists', 'recarray'])
+            op = {'op': 'append', 'entries': [{'k': h.table_key(ti, lower), 'table': ti, 'rows': gen_rows(rng, h.doc, ti, rng.randint(1, 2)),
+                                               'form': form}],
+                  'clock': h.tick(), 'tag': 'append_rows_unsized' + ('_rec' if form == 'recarray' else '')}
+        else:
+            op = gen_op(rng, h, ['write_copy', 'write_new', 'reread', 'append_rows', 'append_rows_rec', 'append_pairs', 'append_mixed',
+                                 'write_over', 'append_empty'])
+        h.apply(op)
+        ops.append(op)
+    return doc, ops
+
+
 SEED_DOC = {'comments': ['seed'], 'hdr': [['k', 'v w']], 'enums': [['state', 'STATUS', ['FAILURE', 'SUCCESS']]], 'tables': [
     {'name': 'FOO', 'cols': [{'name': 'x', 'code': 'i4', 'arr': None}, {'name': 's', 'code': 'S6', 'arr': 2}],
      'rows': [[1, ['a b', '']]]},
@@ -308,10 +401,26 @@ def case_term(doc, raw, ops, res, exps):
     steps = []
     for op, st, exp in zip(ops, res['steps'], exps):
         steps.append('(%s, %s)' % (op_term(doc, op), obs_term(st, raw, exp)))
+    if doc.get('text_seed'):
+        return '(CText %s %s %s %s %s)' % (G.blit(render_text(doc)), G.blit('f0.par'), C.boollit(raw),
+                                           state_term(res['init'], raw, G.expected(doc)), C.coq_list(steps))
     return '(CHist %s %s %s %s)' % (G.doc_term(doc), G.blit('f0.par'), C.boollit(raw), C.coq_list(steps))
 
 
 # ---------------------------------------------------------------------------------------------- direct checks
+
+def first_difference(a, b, path='object'):
+    """where two dumps differ first: '<path>: <object side> / fresh read: <file side>'"""
+    if isinstance(a, dict) and isinstance(b, dict):
+        for k in sorted(set(a) | set(b)):
+            if json.dumps(a.get(k), sort_keys=True) != json.dumps(b.get(k), sort_keys=True):
+                return first_difference(a.get(k), b.get(k), '%s.%s' % (path, k))
+    if isinstance(a, list) and isinstance(b, list) and len(a) == len(b):
+        for i, (x, y) in enumerate(zip(a, b)):
+            if json.dumps(x, sort_keys=True) != json.dumps(y, sort_keys=True):
+                return first_difference(x, y, '%s[%d]' % (path, i))
+    return '%s holds %s, a fresh read of the file gives %s' % (path, json.dumps(a)[:100], json.dumps(b)[:100])
+
 
 def direct_checks(doc, raw, ops, res):
     """Behavioural statement of the property on the real code, step by step.
@@ -322,6 +431,12 @@ def direct_checks(doc, raw, ops, res):
         return [(0, 'init-raised-%s' % res['init']['exc'], res['init'].get('msg', ''))], exps
     h = Hist(doc)
     prev = res['init']
+    ob0 = prev.get('object') or {}
+    if 'exc' in ob0:
+        return [(0, 'initial-object-dump-raised-%s' % ob0['exc'], ob0.get('msg', ''))], exps
+    d0 = G.diff_tables(G.expected(doc), ob0['ok'], check_types=not raw)
+    if d0:
+        bad.append((0, 'initial-read-is-not-the-file-content', '; '.join(d0)[:300]))
     for i, (op, st) in enumerate(zip(ops, res['steps'])):
         before_doc = copy.deepcopy(h.doc)
         want = h.apply(op)
@@ -384,7 +499,7 @@ def direct_checks(doc, raw, ops, res):
             bad.append((k, 'reread-failed', repr(rr)[:200]))
         elif json.dumps(ob['ok'], sort_keys=True) != json.dumps(rr['ok'], sort_keys=True):
             d = G.diff_tables(exp, rr['ok'], check_types=not raw)
-            bad.append((k, 'object-differs-from-fresh-reread', '; '.join(d)[:300]))
+            bad.append((k, 'object-differs-from-fresh-reread', ('; '.join(d) or first_difference(ob['ok'], rr['ok']))[:300]))
         d = G.diff_tables(exp, ob['ok'], check_types=not raw)
         if d:
             bad.append((k, 'object-is-not-the-history-content', '; '.join(d)[:300]))
@@ -407,6 +522,13 @@ def oracle_check(rng, n):
 
 # ---------------------------------------------------------------------------------------------- the check
 
+def job_of(ident, doc, raw, ops):
+    j = {'id': ident, 'doc': doc, 'raw': raw, 'ops': ops}
+    if doc.get('text_seed'):
+        j['text'] = render_text(doc)
+    return j
+
+
 def run_jobs(ctx, jobs, nb=12):
     nb = min(nb, max(1, len(jobs)))
     batches = [jobs[i::nb] for i in range(nb)]
@@ -420,7 +542,7 @@ def run_jobs(ctx, jobs, nb=12):
 
 
 def evaluate(ctx, hists, tag='cases'):
-    jobs = [{'id': 'h%05d' % i, 'doc': doc, 'raw': raw, 'ops': ops} for i, (doc, raw, ops) in enumerate(hists)]
+    jobs = [job_of('h%05d' % i, doc, raw, ops) for i, (doc, raw, ops) in enumerate(hists)]
     results, pydl_file = run_jobs(ctx, jobs)
     ctx.coverage['pydl_file'] = pydl_file
     infos = []
@@ -440,7 +562,7 @@ def evaluate(ctx, hists, tag='cases'):
 
 def failing(doc, raw, ops, ctx):
     """does the history (doc, raw, ops) fail the direct checks?  -> first bad (step, kind, detail) or None"""
-    results, _ = run_jobs(ctx, [{'id': 's0', 'doc': doc, 'raw': raw, 'ops': ops}], nb=1)
+    results, _ = run_jobs(ctx, [job_of('s0', doc, raw, ops)], nb=1)
     bad, _ = direct_checks(doc, raw, ops, results[0])
     return bad[0] if bad else None
 
@@ -454,7 +576,7 @@ def shrink(ctx, doc, raw, ops, kind):
         changed = False
         rounds += 1
         cands = [ops[:i] + ops[i + 1:] for i in range(len(ops))]
-        jobs = [{'id': 'c%03d' % i, 'doc': doc, 'raw': raw, 'ops': c} for i, c in enumerate(cands)]
+        jobs = [job_of('c%03d' % i, doc, raw, c) for i, c in enumerate(cands)]
         if not jobs:
             break
         results, _ = run_jobs(ctx, jobs, nb=8)
@@ -483,6 +605,9 @@ def correspond(ctx, proof_ok=True):
     for i in range(ctx.n(250, 3000)):
         doc, ops = gen_history(rng, rng.randint(1, 12))
         hists.append((doc, rng.random() < 0.4, ops))
+    for i in range(ctx.n(70, 800)):
+        doc, ops = gen_text_history(rng, rng.randint(1, 8))
+        hists.append((doc, rng.random() < 0.3, ops))
     if ctx.thorough:
         for doc, ops in exhaustive_histories(4):
             hists.append((doc, False, ops))
@@ -504,17 +629,18 @@ def correspond(ctx, proof_ok=True):
             nsteps += 1
             key = '%s:%s' % (op['tag'], st['outcome'])
             dist[key] = dist.get(key, 0) + 1
-        if v in (8, 12):
+        if v in (8, 12) and not bad:
             raise RuntimeError('initial document does not render/parse in the model: %r' % (doc,))
         if v & 4:       # the history is outside the domain of the theorems (Append.in_domain); still compared with the model
             v -= 4
-            outside.append((doc, raw, ops))
+            if not doc.get('text_seed'):      # text-seeded histories (char x[]) are outside by construction
+                outside.append((doc, raw, ops))
         spec_bad = bool(v & 2)
         if bad:
             kind = bad[0][1]
             groups.setdefault(kind, []).append((len(ops), doc, raw, ops, bad, v))
         elif v != 0:
-            step = v // 16
+            step = v // 16          # 0: the initial read of a text-seeded history (verdict 9)
             if spec_bad:
                 sig = 'C03:harness:python-and-coq-spec-disagree'
             else:
@@ -553,7 +679,8 @@ def correspond(ctx, proof_ok=True):
                 'nothing); distinct = distinct histories',
         'histories': len(hists),
         'raw_histories': sum(1 for h in hists if h[1]),
-        'histories_in_theorem_domain': len(hists) - len(outside),
+        'text_seeded_histories': sum(1 for h in hists if h[0].get('text_seed')),
+        'histories_in_theorem_domain': len(hists) - len(outside) - sum(1 for h in hists if h[0].get('text_seed')),
         'first_history_outside_domain': ({'doc': outside[0][0], 'ops': outside[0][2]} if outside else None),
         'ops_by_kind_and_outcome': dist,
         'histories_failing': sum(len(x) for x in groups.values()),
@@ -567,7 +694,7 @@ def replay(ctx, rep):
         print('replay file has no history (kind=%s, item=%s)' % (rep.get('kind'), rep.get('item')))
         return 2
     raw = bool(rep.get('raw'))
-    results, pf = run_jobs(ctx, [{'id': 'replay', 'doc': doc, 'raw': raw, 'ops': ops}], nb=1)
+    results, pf = run_jobs(ctx, [job_of('replay', doc, raw, ops)], nb=1)
     bad, _ = direct_checks(doc, raw, ops, results[0])
     print('pydl :', pf)
     print('doc  :', doc)
